@@ -5,6 +5,7 @@ import ComposeVerif.Lemmas.Merge
 import ComposeVerif.Lemmas.Unicity
 import ComposeVerif.Lemmas.Reset
 import ComposeVerif.Lemmas.Fuel
+import ComposeVerif.Lemmas.Spelling
 import ComposeVerif.Neg.C04
 /-!
 # C04 — multiple files and documents merge by the Compose override rules
@@ -487,6 +488,18 @@ theorem extendService_never_panics (base over : Val) (s : String) : extendServic
 choice of `fuelFor` is immaterial -/
 theorem fuelFor_enough (over : Val) : depth over + 2 ≤ fuelFor over := by unfold fuelFor; omega
 
+/-- **fuel monotonicity**: more fuel never changes a successful (or erroneous) result -/
+theorem mergeYaml_fuel_monotone (n k : Nat) (e o : Val) (p : TPath) (r : Out Val) (h : mergeYaml n e o p = r)
+    (hr : ∀ s, r ≠ .panic s) : mergeYaml (n + k) e o p = r :=
+  mergeYaml_le_agree n k e o p r h hr
+
+/-- **the fuel is irrelevant above the bound**: every fuel `≥ depth o + 2` computes the same result, so the value chosen
+by `fuelFor` (and the fuel parameter of every theorem above) does not matter -/
+theorem mergeYaml_fuel_irrelevant (n n' : Nat) (e o : Val) (p : TPath) (h : depth o + 2 ≤ n) (h' : n ≤ n') :
+    mergeYaml n' e o p = mergeYaml n e o p := by
+  obtain ⟨k, rfl⟩ : ∃ k, n' = n + k := ⟨n' - n, by omega⟩
+  exact mergeYaml_fuel_monotone n k e o p _ rfl (mergeYaml_fuel_sufficient n e o p h)
+
 /-- the unicity indexers never panic either (since the repairs of `mountIndexer` / `envFileIndexer`) -/
 theorem index_never_panics (ix : Indexer) (v : Val) (s : String) : index ix v ≠ .panic s := by
   cases ix <;> cases v <;> simp only [index] <;> (try split) <;> (try split) <;> simp
@@ -706,6 +719,18 @@ theorem indexAll_keyValue_mapping (m : KVs) :
     indexAll .keyValue (seqOf (.map m)) = .ok ((sortStrs (mapStrs m)).map kvKey) := by
   simp only [seqOf, intoSeq, Option.getD_some]
   exact indexAll_keyValue_strs _
+
+/-- **the mapping spelling is indexed like the list spelling** (through the sort of `convertIntoSequence`): in the
+sequence made of a mapping with distinct `=`-free keys and non-sequence values, the entry found under index key `k` is
+`k=V` (or `k` for a null value) for the mapping's own value at `k`; together with `kv_later_wins` this is "KEY=VALUE
+attributes merge by key whichever spelling either side uses" down to the individual entry -/
+theorem kv_mapping_spelling (m : KVs) (hnd : (keys m).Nodup) (hk : ∀ k ∈ keys m, ∀ c ∈ k.toList, c ≠ '=')
+    (hv : ∀ kv ∈ m, ∀ xs, kv.2 ≠ .seq xs) (k : String) :
+    lastVal k (((sortStrs (mapStrs m)).map kvKey).zip (seqOf (.map m))) = (lookup k m).map fun v => Val.str (entryStr k v) :=
+  mapping_spelling_lookup m hnd hk hv k
+
+example : lastVal "B" (((sortStrs (mapStrs [("B", .int 2), ("A", .null)])).map kvKey).zip (seqOf (.map [("B", .int 2), ("A", .null)])))
+    = some (.str "B=2") := by rfl
 
 /-! ## 5. Files and `---` documents are folded the same way -/
 
